@@ -398,11 +398,16 @@ class _DataFiles:
     def write_data(self, name, data):
         if self.project.ropefolder is not None:
             file = self._get_file(name)
+            # Write to temporary files and rename them into place, so that an
+            # interrupted save leaves the previous complete files behind.
+            targets = [file.real_path, file.real_path + ".json"]
             with ExitStack() as cm:
-                output_file = cm.enter_context(open(file.real_path, "wb"))
-                output_file2 = cm.enter_context(open(file.real_path + ".json", "w"))
+                output_file = cm.enter_context(open(targets[0] + ".tmp", "wb"))
+                output_file2 = cm.enter_context(open(targets[1] + ".tmp", "w"))
                 pickle.dump(data, output_file, 2)
                 json.dump(data, output_file2, default=lambda o: o.__getstate__())
+            for target in targets:
+                os.replace(target + ".tmp", target)
 
     def add_write_hook(self, hook):
         self.hooks.append(hook)
